@@ -365,14 +365,39 @@ def check_frame(prog, fn, info, role, table):
         for rel, want in (('<', 'right'), ('>', 'left')):
             r = info['rels'][rel]
             links = set()
+            ev_rel = Evaluator(prog, compare_sites(prog, fn), rel)
             for c in r['calls']:
                 tgt = prog.resolve(c)
                 if tgt is None:
                     continue
+                # a side flag computed from the comparison (`as_left = key < node_key`) decides inside the callee:
+                # take the callee as specialised on the flag's value under this ordering
+                consts = {}
+                for i, a in enumerate(c.args):
+                    if (a.ty or '') == 'bool' or strip(a).ty == 'bool':
+                        try:
+                            val = ev_rel.ev(a)
+                        except Exception:
+                            val = None
+                        if isinstance(val, bool):
+                            consts[i + 1] = int(val)
+                if consts:
+                    tgt = prog.specialise(tgt, consts)
                 for (k, f) in link_summary(prog, tgt):
                     if k - 1 < len(c.args):
                         parent = strip(c.args[k - 1])
                         links.add((f, parent is cursor))
+            # linking written out in place: node(P).left|right := freshly allocated slot
+            for st in b.stores:
+                if st.point[0] not in r['blocks']:
+                    continue
+                acc = prog.accessor_call(strip(st.root))
+                fl = st.fields()
+                if acc is None or len(fl) != 1 or fl[0] not in ('left', 'right') or strip(st.value).kind == 'const':
+                    continue
+                ats = origins(prog, fn, st.value)
+                if ats and all(a[0] == 'pop' for a in ats):
+                    links.add((fl[0], strip(acc[2]) is cursor))
             if not links:
                 problems.append('INSERT: stored%sprobe: no linking call found on the path' % rel)
             for (f, under_cursor) in links:
